@@ -159,11 +159,12 @@ class ReachingDefs:
                     out[d.var] = {d}
                 else:
                     out[d.var] = {d}
-            if OUT[n.id] is not None and _same(OUT[n.id], out):
-                continue
             OUT[n.id] = out
             for m, label in n.succ:
-                edge_out = out
+                # an exception raised while the statement is evaluated
+                # leaves before its targets are bound
+                edge_out = cur if label == "exc" and n.kind in (
+                    "stmt", "with_enter", "iter") else out
                 ub = self.unbind_edges.get((n.id, m.id))
                 if ub:
                     edge_out = dict(out)
